@@ -9,7 +9,7 @@ from props.c16 import cross, norm3
 from symoas import cases as K
 from symoas import model, oblig, report
 from symoas.model import SymComp, idents, num_inputs, run_obligations
-from symoas.sym import (S, ZERO, ONE, Sym, band, bor, const, evalf, fabs, ge, gt, le, lt, ne, rawlog, reachable, sqrt,
+from symoas.sym import (S, ZERO, ONE, Sym, band, bor, const, eq, evalf, fabs, ge, gt, le, lt, ne, rawlog, reachable, sqrt,
                         substitute, symarray, var)
 
 PID = "C15"
@@ -23,6 +23,97 @@ def subst_arr(arr, mapping):
     flat = [S(x) for x in np.asarray(arr, dtype=object).ravel()]
     new = substitute(flat, mapping)
     return np.array([new[x.nid] for x in flat], dtype=object).reshape(np.shape(arr))
+
+
+def _syntactically_nonneg(n, memo):
+    if n.nid in memo:
+        return memo[n.nid]
+    op, r = n.op, False
+    if op == "const":
+        r = n.args[0] >= 0
+    elif op in ("sqrt", "abs", "exp"):
+        r = True
+    elif op == "pow":
+        try:
+            r = (int(n.args[1]) == n.args[1] and int(n.args[1]) % 2 == 0) or _syntactically_nonneg(n.args[0], memo)
+        except Exception:
+            r = False
+    elif op == "mul":
+        r = (n.args[0] is n.args[1]) or (_syntactically_nonneg(n.args[0], memo) and _syntactically_nonneg(n.args[1], memo))
+    elif op in ("div", "add"):
+        r = _syntactically_nonneg(n.args[0], memo) and _syntactically_nonneg(n.args[1], memo)
+    memo[n.nid] = r
+    return r
+
+
+def cancellation_pass(rep, tag, cls, sc, ins, vm, timeout):
+    """"Finite" is a statement about the floating-point code, and the engine reasons over the reals.  The one place where the
+    two part company in a stress recovery is a square root of a *difference*: exact arithmetic keeps it at >= 0, rounding does
+    not.  Every square-root argument reachable from the stresses is therefore either a sum of non-negative terms as written
+    (a syntactic fact of the executed code, recorded as a ground obligation) or the solver is asked for an admissible input
+    (generic element axis, non-zero displacement field) where the argument vanishes by cancellation, and the real code is run
+    there and on rescaled copies of that displacement field: a non-finite stress is a violation."""
+    roots = [x for x in np.asarray(vm, dtype=object).ravel() if isinstance(x, Sym)]
+    memo = {}
+    sq = [n for n in reachable(roots) if n.op == "sqrt"]
+    suspects = [n for n in sq if not _syntactically_nonneg(n.args[0], memo)]
+    rep.counts["obligations"] += 1
+    rep.counts["nontrivial"] += 1
+    grp = {"case": tag + " square roots", "square_roots": len(sq), "arguments_not_sums_of_nonnegative_terms": len(suspects)}
+    rep.groups.append(grp)
+    if not suspects:
+        rep.counts["discharged"] += 1
+        rep.log("%-52s %d square roots, every argument a sum of non-negative terms" % (tag + " square roots", len(sq)))
+        return
+    rep.counts["discharged"] += 1  # the ground fact above is replaced by one solver obligation per suspect argument
+    # a generic element: nodes, section data at dyadic values; the displacement field stays symbolic
+    ny = ins["nodes"].shape[0]
+    nominal = {}
+    # (element vectors (2, 3, 6)/4 and (3, 6, 2)/4 in turn: oblique to every coordinate axis, of rational length 7/4)
+    pt = np.array([0.25, -2.0, 0.125])
+    for j in range(ny):
+        for c in range(3):
+            nominal["nodes[%d,%d]" % (j, c)] = float(pt[c])
+        pt = pt + (np.array([0.5, 0.75, 1.5]) if j % 2 == 0 else np.array([0.75, 1.5, 0.5]))
+    for n_ in sc.in_names:
+        if n_ in ("nodes", "disp"):
+            continue
+        for idx in np.ndindex(*sc.shape(n_)):
+            nominal["%s[%s]" % (n_, ",".join(map(str, idx)))] = 0.25 if "thick" not in n_ else 0.03125
+    mp = {k: S(v) for k, v in nominal.items()}
+    disp = ins["disp"]
+    mag = sum(((disp[1, c] - disp[0, c]) * (disp[1, c] - disp[0, c]) for c in range(3, 6)), ZERO)  # the first element is twisted / bent
+    obs = []
+    for n in suspects[:8]:
+        arg = subst_arr([n.args[0]], mp)[0]
+        obs.append(oblig.Ob("sqrt argument %d vanishes by cancellation" % n.nid, cond=band(eq(arg, 0), ge(mag, 1)), assume=[],
+                            meta={"family": "von Mises stress is finite", "node": n.nid}))
+    oblig.discharge(obs, timeout=timeout, levels=(1, 2))
+    rep.add_obs(tag + " square roots of differences", obs)
+    rng = np.random.default_rng(8)
+    for ob in obs:
+        if ob.verdict != "candidate":
+            continue
+        env = dict(nominal)
+        env.update(oblig.model_env(ob))
+        vals = num_inputs(ins, model.FillEnv(env))
+        d0 = np.array(vals["disp"], dtype=float)
+        bad = None
+        for t in range(64):
+            v2 = dict(vals)
+            v2["disp"] = d0 * (1.0 if t == 0 else float(rng.uniform(0.5, 2.0)))
+            out = np.asarray(sc.real(v2)["vonmises"], dtype=float)
+            if not np.all(np.isfinite(out)):
+                bad = (v2["disp"], out)
+                break
+        fam = "%s: von Mises stress is finite" % cls
+        if bad is not None:
+            rep.violation(fam, "real %s at nodes %s, disp %s (the argument of a square root, a difference, vanishes there in exact arithmetic): vonmises = %s" % (
+                cls, np.array(vals["nodes"]).tolist(), np.round(bad[0], 6).tolist(), bad[1].tolist()),
+                {"family": fam, "nodes": np.array(vals["nodes"]).tolist(), "disp": bad[0].tolist(), "cancellation": True})
+        else:
+            rep.not_reproduced.append({"id": ob.id, "why": "the real code stays finite at the cancellation point and on 63 rescaled displacement fields"})
+    rep.log("%-52s %d square roots, %d arguments are differences: %s" % (tag + " square roots", len(sq), len(suspects), ", ".join(o_.verdict for o_ in obs)))
 
 
 def run(tier, seed, only=None):
@@ -46,6 +137,7 @@ def run(tier, seed, only=None):
                 vals = num_inputs(ins2 or ins, env)
                 return sc.real(vals)["vonmises"], vals
 
+            cancellation_pass(rep, tag, cls, sc, ins, vm, timeout)
             # (1) non-negative
             obs = [oblig.Ob("vm%s >= 0" % list(idx), cond=lt(vm[idx], 0), assume=pos, meta={"family": "von Mises stress is non-negative", "idx": list(idx)})
                    for idx in np.ndindex(*vm.shape)]
